@@ -155,9 +155,11 @@ class Ctx:
         self.level = level
         self.replay_path = replay
         self.t0 = time.time()
-        self.work = os.path.join(WORK, prop.lower() + ("-alt" if ALT else ""))
-        if replay is None:
-            shutil.rmtree(self.work, ignore_errors=True)
+        # one scratch directory per property and kind of run, so that the quick and the thorough command (or a
+        # replay) of one property may run at the same time
+        kind = "" if (replay is None and tier == "quick") else ("-" + (tier if replay is None else ("selftest" if replay == "selftest" else "replay")))
+        self.work = os.path.join(WORK, prop.lower() + kind + ("-alt" if ALT else ""))
+        shutil.rmtree(self.work, ignore_errors=True)
         os.makedirs(self.work, exist_ok=True)
         os.makedirs(os.path.join(WORK, "replays"), exist_ok=True)
         self.rejections = []        # dicts: {why, event/inputs..., expected, ...}
